@@ -185,7 +185,8 @@ def run_vh(pid, outdir, seed, tier, replay=None, scale=None, timeout=3000):
 
 def eval_shard(path):
     try:
-        rc, out = run(["coqc", "-Q", COQ, "TT", "-w", "none", path], cwd=os.path.dirname(path), timeout=1800)
+        rc, out = run(["bash", "-c", "ulimit -s unlimited 2>/dev/null || ulimit -s 1000000; exec coqc -Q %s TT -w none %s" % (COQ, path)],
+                      cwd=os.path.dirname(path), timeout=1800)
     except subprocess.TimeoutExpired:
         return path, None, "coqc timeout"
     if rc != 0:
